@@ -1,25 +1,33 @@
 import IsoMdl.Driver.Age
+import IsoMdl.Driver.Session
 /-
 Line-protocol driver of the executable model: one operation per input line, one observation per
 output line.  Unknown or malformed operations print `bad-op` (never a default value).
 -/
 open IsoMdl.Driver
 
-def handlers : List (List String → Option String) := [ageOp]
+structure DState where
+  world : Option IsoMdl.Session.World := none
 
-def step (line : String) : String :=
+def stateless : List (List String → Option String) := [ageOp, ivOp]
+
+def step (st : DState) (line : String) : DState × String :=
   let toks := (line.trimAscii.toString.splitOn " ").filter (· ≠ "")
-  match handlers.findSome? (fun h => h toks) with
-  | some out => out
-  | none => "bad-op"
+  match stateless.findSome? (fun h => h toks) with
+  | some out => (st, out)
+  | none =>
+    match sessOp st.world toks with
+    | some (w, out) => ({ st with world := w }, out)
+    | none => (st, "bad-op")
 
-partial def loop (h : IO.FS.Stream) (out : IO.FS.Stream) : IO Unit := do
+partial def loop (h : IO.FS.Stream) (out : IO.FS.Stream) (st : DState) : IO Unit := do
   let line ← h.getLine
   if line.isEmpty then return ()
-  out.putStrLn (step line)
-  loop h out
+  let (st', o) := step st line
+  out.putStrLn o
+  loop h out st'
 
 def main : IO Unit := do
   let stdout ← IO.getStdout
-  loop (← IO.getStdin) stdout
+  loop (← IO.getStdin) stdout {}
   stdout.flush
